@@ -40,9 +40,17 @@ fn contains(id: u64, lon: f64, lat: f64) -> Result<f64, String> {
 /// independent spherical oracle through the public boundary call only (r <= 12)
 fn sph_contains(id: u64, lon: f64, lat: f64) -> Result<(bool, f64), String> {
     let r = rc::resolution(id).unwrap();
-    let ring = geo::ring_vectors(id, 64)?;
     let v = rg::ll_to_vec(lon, lat);
     let size = geo::cell_size(r);
+    // coarse ring first: a point well inside it needs no finer ring
+    let coarse = geo::ring_vectors(id, 8)?;
+    if rg::winding(&coarse, v).map(|w| w == 1).unwrap_or(false) {
+        let d = rg::dist_to_ring(&coarse, v);
+        if d > 0.05 * size {
+            return Ok((true, d));
+        }
+    }
+    let ring = geo::ring_vectors(id, 64)?;
     let d = rg::dist_to_ring(&ring, v);
     let inside = rg::winding(&ring, v).map(|w| w == 1).unwrap_or(false);
     Ok((inside || d <= 1e-3 * size + 1e-9, if inside { d } else { -d }))
